@@ -152,7 +152,23 @@ def load_findings():
         return json.load(f)["findings"]
 
 
+def replay_cases():
+    """the single case of a replay file (./check Cxx --replay path), or None"""
+    p = os.environ.get("VERIF_REPLAY")
+    if not p:
+        return None
+    with open(p) as f:
+        v = json.load(f)
+    c = dict(v["case"])
+    c.setdefault("tags", ["replay"])
+    c.setdefault("tier", "B")
+    c.setdefault("id", "replay")
+    return [c]
+
+
 def witness_cases(prop):
+    if os.environ.get("VERIF_REPLAY"):
+        return []
     """design cases attached to the known findings of a property (re-run on every invocation)"""
     out = []
     for fd in load_findings():
